@@ -33,6 +33,96 @@ import (
 //go:embed baseline_funcs.txt
 var baselineFuncsTxt string
 
+//go:embed baseline_sigs.txt
+var baselineSigsTxt string
+
+// baselineSigs: full name -> signature (with receiver) of the functions of the pinned tree; used to
+// recognise an anchor function that was merely renamed.
+func baselineSigs() map[string]string {
+	m := map[string]string{}
+	for _, l := range strings.Split(baselineSigsTxt, "\n") {
+		f := strings.SplitN(strings.TrimSpace(l), "\t", 2)
+		if len(f) == 2 && !strings.HasPrefix(f[0], "#") {
+			m[f[0]] = f[1]
+		}
+	}
+	return m
+}
+
+func funcSig(fn *types.Func) string {
+	sig := fn.Type().(*types.Signature)
+	q := func(p *types.Package) string { return p.Path() }
+	r := ""
+	if sig.Recv() != nil {
+		r = "(" + types.TypeString(sig.Recv().Type(), q) + ") "
+	}
+	// parameter and result types only (names are free to change)
+	tuple := func(t *types.Tuple) string {
+		var parts []string
+		for i := 0; i < t.Len(); i++ {
+			parts = append(parts, types.TypeString(t.At(i).Type(), q))
+		}
+		return "(" + strings.Join(parts, ", ") + ")"
+	}
+	v := ""
+	if sig.Variadic() {
+		v = " variadic"
+	}
+	return r + "func" + tuple(sig.Params()) + " " + tuple(sig.Results()) + v
+}
+
+func pkgOfFullName(full string) string {
+	k := shortKey(full)
+	if i := strings.Index(k, "#"); i >= 0 {
+		return k[:i]
+	}
+	return k
+}
+
+// renamedAnchors: new function (full name) -> the recorded function it replaces: the recorded one is
+// gone, no function of its name exists in the package any more, and exactly one new function of the
+// package has exactly its signature (and no other missing function has it).
+var renamedAnchors = map[string]string{}
+
+func computeRenamedAnchors(decls []declInfo, base map[string]bool) map[string]string {
+	sigs := baselineSigs()
+	present := map[string]bool{}
+	shortPresent := map[string]bool{}
+	for _, d := range decls {
+		present[d.fn.FullName()] = true
+		shortPresent[shortKey(d.fn.FullName())] = true
+	}
+	type key struct{ pkg, sig string }
+	missing := map[key][]string{}
+	for b := range base {
+		if present[b] || shortPresent[shortKey(b)] {
+			continue
+		}
+		if sg, ok := sigs[b]; ok {
+			k := key{pkgOfFullName(b), sg}
+			missing[k] = append(missing[k], b)
+		}
+	}
+	cands := map[key][]string{}
+	for _, d := range decls {
+		n := d.fn.FullName()
+		if base[n] {
+			continue
+		}
+		k := key{pkgOfFullName(n), funcSig(d.fn)}
+		if _, ok := missing[k]; ok {
+			cands[k] = append(cands[k], n)
+		}
+	}
+	out := map[string]string{}
+	for k, olds := range missing {
+		if len(olds) == 1 && len(cands[k]) == 1 {
+			out[cands[k][0]] = olds[0]
+		}
+	}
+	return out
+}
+
 func baselineFuncs() map[string]bool {
 	m := map[string]bool{}
 	for _, l := range strings.Split(baselineFuncsTxt, "\n") {
@@ -118,12 +208,16 @@ func newHelpers(pkgs []*packages.Package, base map[string]bool, skip map[string]
 			movedAnchor[shortKey(b)] = true
 		}
 	}
+	renamedAnchors = computeRenamedAnchors(decls, base)
 	for _, d := range decls {
 		n := d.fn.FullName()
 		if base[n] || skip[n] || d.fn.Name() == "init" || d.fn.Name() == "main" {
 			continue
 		}
 		if movedAnchor[shortKey(n)] {
+			continue
+		}
+		if _, isRenamed := renamedAnchors[n]; isRenamed {
 			continue
 		}
 		sig := d.fn.Type().(*types.Signature)
@@ -311,6 +405,19 @@ func normalise(repo string, pkgs []*packages.Package) (*normResult, []*packages.
 				res.Log = append(res.Log, fmt.Sprintf("not inlined: %s at %s (%v)", c.h.fn.FullName(), fset.Position(c.call.Pos()), err))
 				return true, nil
 			}
+			if r.Literalized && !isGoOrDefer(f, c.call) && isPureBasicPredicate(c.h.pkg.TypesInfo, c.h.decl) {
+				if _, err2 := stmtInline(c.pkg, f, c.call, content, c.h.pkg, c.h.decl, hcontent); err2 != nil {
+					if _, err3 := hoistCall(c.pkg, f, c.call, content); err3 != nil {
+						// a side-effect-free predicate over basic values in a position where it cannot be taken
+						// out (a case clause, the right of && ...): it stays a call; the rules evaluate such
+						// predicates through their bodies (bytedec / boolfn), which a function literal capturing
+						// the operands would prevent
+						skip[c.h.fn.FullName()] = true
+						res.Log = append(res.Log, fmt.Sprintf("left as a call: %s is a pure predicate over basic values used inside an expression at %s", c.h.fn.FullName(), fset.Position(c.call.Pos())))
+						return false, nil
+					}
+				}
+			}
 			if r.Literalized && !isGoOrDefer(f, c.call) {
 				out, err2 := stmtInline(c.pkg, f, c.call, content, c.h.pkg, c.h.decl, hcontent)
 				if err2 == nil {
@@ -419,4 +526,53 @@ func isGoOrDefer(f *ast.File, call *ast.CallExpr) bool {
 		}
 	}
 	return false
+}
+
+
+// isPureBasicPredicate: the function takes only basic-typed parameters (numbers, strings, bools),
+// returns one bool, and its body consists of if / switch / return over expressions without calls
+// (other than conversions), indexing, dereferences, selectors, function literals or assignments.
+// Such a function has no effect, cannot panic and terminates.
+func isPureBasicPredicate(info *types.Info, decl *ast.FuncDecl) bool {
+	fn, _ := info.Defs[decl.Name].(*types.Func)
+	if fn == nil || decl.Recv != nil {
+		return false
+	}
+	sig := fn.Type().(*types.Signature)
+	if sig.Results().Len() != 1 || sig.Variadic() || sig.TypeParams().Len() > 0 {
+		return false
+	}
+	if b, ok := sig.Results().At(0).Type().Underlying().(*types.Basic); !ok || b.Info()&types.IsBoolean == 0 {
+		return false
+	}
+	for i := 0; i < sig.Params().Len(); i++ {
+		if _, ok := sig.Params().At(i).Type().Underlying().(*types.Basic); !ok {
+			return false
+		}
+	}
+	pure := true
+	ast.Inspect(decl.Body, func(n ast.Node) bool {
+		switch x := n.(type) {
+		case *ast.BlockStmt, *ast.IfStmt, *ast.SwitchStmt, *ast.CaseClause, *ast.ReturnStmt:
+		case *ast.Ident, *ast.BasicLit, *ast.ParenExpr:
+		case *ast.BinaryExpr:
+			switch x.Op {
+			case token.QUO, token.REM, token.SHL, token.SHR:
+				pure = false // may panic
+			}
+		case *ast.UnaryExpr:
+			if x.Op != token.NOT && x.Op != token.SUB && x.Op != token.ADD && x.Op != token.XOR {
+				pure = false
+			}
+		case *ast.CallExpr:
+			if tv, ok := info.Types[x.Fun]; !ok || !tv.IsType() {
+				pure = false
+			}
+		case nil:
+		default:
+			pure = false
+		}
+		return pure
+	})
+	return pure
 }
